@@ -43,3 +43,182 @@ Definition run_case (l : list Z) : list Z :=
       else [-1]
   | [] => [-1]
   end.
+
+(** ** Writer histories (kind 4)
+    [4; has_shx; ending; fault_dest; fault_k; fault_persistent; ncalls; calls..]
+    call = 0 (finalize) | 1 ctor-spec (write_shape) | 2 (heal the devices);
+    ending = 0 drop | 1 finalize then drop | 2 the calls are the argument of
+    write_shapes. *)
+From SF Require Import Model.Prog Model.Decode Model.Writer Model.Reader.
+
+Definition K_WHIST : Z := 4.
+Definition K_READ : Z := 5.
+
+Inductive pcall := PFinalize | PWrite (c : ctor) | PHeal.
+
+Definition p_call : parser pcall :=
+  k <- p_next ;;
+  if k =? 0 then p_ret PFinalize
+  else if k =? 1 then c <- p_ctor ;; p_ret (PWrite c)
+  else if k =? 2 then p_ret PHeal
+  else p_fail.
+
+(** Builds the shapes of the calls; None if a constructor refuses its input. *)
+Fixpoint build_calls (cs : list pcall) : option (list wcall) :=
+  match cs with
+  | [] => Some []
+  | c :: r =>
+      match build_calls r with
+      | None => None
+      | Some r' =>
+          match c with
+          | PFinalize => Some (CFinalize :: r')
+          | PHeal => Some (CHeal :: r')
+          | PWrite ct => match build ct with Ok s => Some (CWrite s :: r') | _ => None end
+          end
+      end
+  end.
+
+Definition r_unit_res (r : res unit) : list Z := r_res (fun _ => []) r.
+
+Definition r_wop (op : wop) : list Z :=
+  match op with
+  | WriteAll bs => 0 :: r_bytes bs
+  | WSeekStart p => [1; p]
+  | WSeekEnd => [2]
+  | WFlush => [3]
+  end.
+
+Definition r_dev (d : wdev) : list Z :=
+  r_bytes (d_buf d) ++ [r_bool (d_flushed d); Z.of_nat (d_ops d); zlen (d_log d)]
+  ++ flat_map r_wop (rev (d_log d)).
+
+Definition r_world (w : world) : list Z := r_dev (w_shp w) ++ r_dev (w_shx w).
+
+Definition shapes_of_calls (cs : list wcall) : option (list shape) :=
+  fold_right (fun c acc => match c, acc with CWrite s, Some l => Some (s :: l) | _, _ => None end) (Some []) cs.
+
+Definition case_whist (l : list Z) : list Z :=
+  match l with
+  | has_shx :: ending :: fdest :: fk :: fpers :: rest =>
+      match p_list p_call rest with
+      | Some (pcs, []) =>
+          match build_calls pcs with
+          | None => [-3]
+          | Some cs =>
+              let w0 := if fdest =? 1 then world_with_fault Shp (Z.to_nat fk) (fpers =? 1)
+                        else if fdest =? 2 then world_with_fault Shx (Z.to_nat fk) (fpers =? 1)
+                        else world0 in
+              let hs := has_shx =? 1 in
+              if ending =? 2 then
+                match shapes_of_calls cs with
+                | None => [-1]
+                | Some ss => let '(r, w) := run_write_shapes hs w0 ss in
+                             1 :: r_unit_res r ++ r_world w
+                end
+              else
+                let '(rs, w) := run_history hs w0 cs (if ending =? 1 then EFinalizeDrop else EDrop) in
+                zlen rs :: flat_map r_unit_res rs ++ r_world w
+          end
+      | _ => [-1]
+      end
+  | _ => [-1]
+  end.
+
+(** ** Reader histories (kind 5)
+    [5; req; has_shx; fault_k; fault_persistent; nsched; sched..; shp bytes;
+     shx bytes (if has_shx); nops; ops..]
+    req = -1 (generic Shape) or the code of a concrete type; fault_k = -1: no
+    fault.  op = 0 j (iterate, at most j items; j = -1: to the end) |
+    1 i (read_nth) | 2 k (seek) | 3 (count) | 4 (size_hint of a new iterator). *)
+Inductive rop := OIter (j : Z) | ONth (i : Z) | OSeek (k : Z) | OCount | OHint.
+
+Definition p_rop : parser rop :=
+  k <- p_next ;;
+  if k =? 0 then j <- p_next ;; p_ret (OIter j)
+  else if k =? 1 then i <- p_next ;; p_ret (ONth i)
+  else if k =? 2 then i <- p_next ;; p_ret (OSeek i)
+  else if k =? 3 then p_ret OCount
+  else if k =? 4 then p_ret OHint
+  else p_fail.
+
+Definition r_header (h : header) : list Z :=
+  [h_len h; st_code (h_type h); h_version h;
+   px (bmin (h_box h)); py (bmin (h_box h)); px (bmax (h_box h)); py (bmax (h_box h));
+   pz (bmin (h_box h)); pz (bmax (h_box h)); pm (bmin (h_box h)); pm (bmax (h_box h))].
+
+Definition r_item (r : res shape) : list Z := r_res r_shape r.
+Definition r_opt_item (o : option (res shape)) : list Z :=
+  match o with None => [0] | Some r => 1 :: r_item r end.
+
+(** One reader call, as a program returning its rendering. *)
+Definition run_rop (cap : nat) (req : option shape_type) (st : rstate) (o : rop) : prog (list Z * rstate) :=
+  match o with
+  | OIter j =>
+      let fuel := if j <? 0 then cap else Nat.min cap (Z.to_nat j) in
+      x <-- it_pull fuel req st ;;
+      let '(items, ended, st') := x in
+      Ret (zlen items :: flat_map r_item items ++ [r_bool ended], st')
+  | ONth i => x <-- r_read_nth req st i ;; Ret (r_opt_item (fst x), snd x)
+  | OSeek k => x <-- r_seek st k ;; Ret (r_unit_res (fst x), snd x)
+  | OCount => Ret (r_res (fun n => [n]) (r_count st), st)
+  | OHint => Ret (match size_hint st with None => [0] | Some n => [1; n] end, st)
+  end.
+
+Fixpoint run_rops (cap : nat) (req : option shape_type) (st : rstate) (os : list rop) : prog (list Z) :=
+  match os with
+  | [] => Ret []
+  | o :: r => x <-- run_rop cap req st o ;; ys <-- run_rops cap req (snd x) r ;; Ret (fst x ++ ys)
+  end.
+
+Definition decode_req (c : Z) : option (option shape_type) :=
+  if c =? -1 then Some None else
+  match st_decode c with Some TNull => None | Some t => Some (Some t) | None => None end.
+
+Definition src_with (data : bytes) (fk fpers : Z) : src :=
+  mksrc data 0 0 (if fk <? 0 then None else Some (mkfault (Z.to_nat fk) (fpers =? 1))) [].
+
+Definition r_final {A} (f : A -> list Z) (r : res A) : list Z := r_res f r.
+
+Definition case_read (l : list Z) : list Z :=
+  match l with
+  | reqc :: has_shx :: fk :: fpers :: rest =>
+      match decode_req reqc, p_list p_next rest with
+      | Some req, Some (_sched, rest1) =>
+          match p_bytes rest1 with
+          | Some (shp, rest2) =>
+              let after_shx := if has_shx =? 1 then p_bytes rest2 else Some ([], rest2) in
+              match after_shx with
+              | Some (shx, rest3) =>
+                  match p_list p_rop rest3 with
+                  | Some (ops, []) =>
+                      let cap := (length shp / 12 + length shx / 8 + 2)%nat in
+                      (* the index is read first, from its own (fault-free) source *)
+                      let idx := if has_shx =? 1 then fst (run read_index_file (src_of shx)) else Ok [] in
+                      match idx with
+                      | Err e => 1 :: err_codes e
+                      | Panic => [2]
+                      | Ok index =>
+                          let open := if has_shx =? 1 then r_with_shx index else r_new in
+                          let p := st <-- open ;; out <-- run_rops cap req st ops ;; Ret (r_header (r_hdr st) ++ out) in
+                          r_final (fun x => x) (fst (run p (src_with shp fk fpers)))
+                      end
+                  | _ => [-1]
+                  end
+              | None => [-1]
+              end
+          | None => [-1]
+          end
+      | _, _ => [-1]
+      end
+  | _ => [-1]
+  end.
+
+Definition run_case2 (l : list Z) : list Z :=
+  match l with
+  | k :: r =>
+      if k =? K_WHIST then case_whist r
+      else if k =? K_READ then case_read r
+      else run_case l
+  | [] => [-1]
+  end.
